@@ -175,6 +175,8 @@ pub enum Op {
     Open(usize),
     Next(usize),
     Drop(usize),
+    /// create handle h now (a clone made after the cache may already have been extended)
+    Make(usize),
 }
 
 impl Op {
@@ -185,6 +187,7 @@ impl Op {
             Op::Open(h) => format!("open {}", h),
             Op::Next(i) => format!("next {}", i),
             Op::Drop(i) => format!("drop {}", i),
+            Op::Make(h) => format!("make {}", h),
         }
     }
     fn parse(t: &str) -> Option<Op> {
@@ -196,6 +199,7 @@ impl Op {
             "open" => Some(Op::Open(n(1)?)),
             "next" => Some(Op::Next(n(1)?)),
             "drop" => Some(Op::Drop(n(1)?)),
+            "make" => Some(Op::Make(n(1)?)),
             _ => None,
         }
     }
@@ -205,6 +209,8 @@ impl Op {
 pub struct History {
     pub prefix: Vec<u64>,
     pub handles: usize,
+    /// handles created by a `make` operation instead of at the start
+    pub deferred: Vec<usize>,
     pub ops: Vec<Op>,
 }
 
@@ -242,7 +248,13 @@ pub fn run_history(h: &History) -> Result<u64, Fail> {
     let cur = Cell::new(0usize);
     let res = guarded(|| -> Result<u64, Fail> {
         let base = wcet::ExtrapolatingCurve::new(wcet::Curve::new(h.prefix.iter().map(|x| s(*x)).collect()));
-        let handles: Vec<wcet::ExtrapolatingCurve> = (0..h.handles).map(|_| base.clone()).collect();
+        let handles: Vec<std::cell::OnceCell<wcet::ExtrapolatingCurve>> =
+            (0..h.handles).map(|_| std::cell::OnceCell::new()).collect();
+        for i in 0..h.handles {
+            if !h.deferred.contains(&i) {
+                let _ = handles[i].set(base.clone());
+            }
+        }
         let fresh_cost = |n: usize| -> u64 {
             let mut c = wcet::Curve::new(h.prefix.iter().map(|x| s(*x)).collect());
             c.extrapolate(n + 1);
@@ -257,8 +269,17 @@ pub fn run_history(h: &History) -> Result<u64, Fail> {
         for (idx, op) in h.ops.iter().enumerate() {
             cur.set(idx);
             match op {
+                Op::Make(hi) => {
+                    if let Some(cell) = handles.get(*hi) {
+                        let _ = cell.set(base.clone());
+                    }
+                }
                 Op::Cost(hi, n) => {
-                    let got = su(handles[*hi].cost_of_jobs(*n));
+                    let hd = match handles.get(*hi).and_then(|c| c.get()) {
+                        Some(x) => x,
+                        None => continue,
+                    };
+                    let got = su(hd.cost_of_jobs(*n));
                     let f = fresh_cost(*n);
                     let m = ref_cost(&h.prefix, *n);
                     compared += 1;
@@ -267,14 +288,21 @@ pub fn run_history(h: &History) -> Result<u64, Fail> {
                     }
                 }
                 Op::Least(hi, n) => {
-                    let got = su(handles[*hi].least_wcet(*n));
+                    let hd = match handles.get(*hi).and_then(|c| c.get()) {
+                        Some(x) => x,
+                        None => continue,
+                    };
+                    let got = su(hd.least_wcet(*n));
                     let f = fresh_least(*n);
                     compared += 1;
                     if got != f {
                         return Err(Fail::Wrong { op_index: idx, got, fresh: f, model: f });
                     }
                 }
-                Op::Open(hi) => iters.push(Some((handles[*hi].job_cost_iter(), 0))),
+                Op::Open(hi) => match handles.get(*hi).and_then(|c| c.get()) {
+                    Some(hd) => iters.push(Some((hd.job_cost_iter(), 0))),
+                    None => iters.push(None),
+                },
                 Op::Next(i) => {
                     if let Some(Some((it, consumed))) = iters.get_mut(*i) {
                         let got = it.next().map(su).unwrap_or(u64::MAX);
@@ -304,7 +332,8 @@ pub fn run_history(h: &History) -> Result<u64, Fail> {
 }
 
 fn history_text(h: &History) -> String {
-    let mut out = format!("prefix {}\nhandles {}\n", nums(&h.prefix), h.handles);
+    let dv: Vec<u64> = h.deferred.iter().map(|x| *x as u64).collect();
+    let mut out = format!("prefix {}\nhandles {}\ndeferred {}\n", nums(&h.prefix), h.handles, nums(&dv));
     for o in &h.ops {
         out.push_str(&format!("op {}\n", o.text()));
     }
@@ -314,6 +343,7 @@ fn history_text(h: &History) -> String {
 fn parse_history(text: &str) -> Option<History> {
     let mut prefix = Vec::new();
     let mut handles = 0usize;
+    let mut deferred: Vec<usize> = Vec::new();
     let mut ops = Vec::new();
     for l in text.lines() {
         let l = l.trim();
@@ -321,6 +351,8 @@ fn parse_history(text: &str) -> Option<History> {
             prefix = r.split_whitespace().filter_map(|x| x.parse().ok()).collect();
         } else if let Some(r) = l.strip_prefix("handles ") {
             handles = r.trim().parse().ok()?;
+        } else if let Some(r) = l.strip_prefix("deferred") {
+            deferred = r.split_whitespace().filter_map(|x| x.parse().ok()).collect();
         } else if let Some(r) = l.strip_prefix("op ") {
             ops.push(Op::parse(r)?);
         }
@@ -328,7 +360,7 @@ fn parse_history(text: &str) -> Option<History> {
     if prefix.is_empty() || handles == 0 {
         return None;
     }
-    Some(History { prefix, handles, ops })
+    Some(History { prefix, handles, deferred, ops })
 }
 
 fn fail_text(f: &Fail, h: &History) -> String {
@@ -409,13 +441,24 @@ pub fn gen_history(rng: &mut Rng, stats: &mut [u64; 6]) -> History {
     let max_n = rng.range(1, 8) as usize;
     let prefix: Vec<u64> = (1..=max_n.min(trace.len())).map(|k| max_run_cost(&trace, k)).collect();
     let handles = rng.range(2, 5) as usize;
+    let deferred: Vec<usize> = (1..handles).filter(|_| rng.chance(1, 3)).collect();
+    let mut made: Vec<bool> = (0..handles).map(|i| !deferred.contains(&i)).collect();
     let steps = rng.range(6, 60) as usize;
     let mut ops = Vec::new();
     let mut open: Vec<usize> = Vec::new();
     let mut n_iters = 0usize;
     let iter_heavy = rng.chance(1, 3);
     for _ in 0..steps {
-        let h = rng.index(handles);
+        let pending: Vec<usize> = (0..handles).filter(|i| !made[*i]).collect();
+        if !pending.is_empty() && rng.chance(1, 5) {
+            let hn = *rng.pick(&pending);
+            made[hn] = true;
+            ops.push(Op::Make(hn));
+            stats[5] += 1;
+            continue;
+        }
+        let avail: Vec<usize> = (0..handles).filter(|i| made[*i]).collect();
+        let h = *rng.pick(&avail);
         stats[0] += 1;
         let q = match rng.below(4) {
             0 => rng.below(prefix.len() as u64 + 2) as usize,
@@ -425,8 +468,12 @@ pub fn gen_history(rng: &mut Rng, stats: &mut [u64; 6]) -> History {
         };
         let c = rng.below(10);
         if (c < 3 || (iter_heavy && c < 6)) && !open.is_empty() {
-            ops.push(Op::Next(*rng.pick(&open)));
-            stats[1] += 1;
+            let it = *rng.pick(&open);
+            let burst = if rng.chance(1, 12) { rng.range(5, 60) } else { 1 };
+            for _ in 0..burst {
+                ops.push(Op::Next(it));
+                stats[1] += 1;
+            }
         } else if c == 3 || (iter_heavy && c == 6) {
             ops.push(Op::Open(h));
             open.push(n_iters);
@@ -438,12 +485,15 @@ pub fn gen_history(rng: &mut Rng, stats: &mut [u64; 6]) -> History {
             stats[3] += 1;
         } else if c < 8 {
             ops.push(Op::Cost(h, q));
+            if rng.chance(1, 10) {
+                ops.push(Op::Cost(*rng.pick(&avail), q)); // the same query again
+            }
         } else {
             ops.push(Op::Least(h, q));
         }
     }
     stats[4] += open.len() as u64;
-    History { prefix, handles, ops }
+    History { prefix, handles, deferred, ops }
 }
 
 pub struct WcetShared<'a> {
@@ -613,6 +663,7 @@ fn client_item(sh: &WcetShared, k: u64, rng: &mut Rng, acc: &mut Acc) {
     acc.counters.add("fault.iterator_opened", stats[2]);
     acc.counters.add("fault.iterator_dropped_midway", stats[3]);
     acc.counters.add("fault.iterator_in_flight_at_end", stats[4]);
+    acc.counters.add("fault.handle_cloned_after_cache_extended", stats[5]);
     let text = history_text(&h);
     let fpv = hash_str(&text);
     sh.fps.insert(fpv);
